@@ -494,7 +494,8 @@ X_MeldStep_A == Op("Meld") /\ OkRes /\ Has2 /\ ~Damaged /\ HasObs(ob[E.a.s]) /\ 
 X_MeldStep_C ==
     LET src == ob[E.a.s]  sd == der[E.a.s] IN
     /\ \A i \in sd.items : (i.ok /\ i.kind = "delta" /\ i.name \in DOMAIN src.status) => i \in DPost.items
-    /\ \A i \in sd.items : (i.ok /\ i.kind = "pack" /\ ~src.staging /\ sd.applied = sd.ccn) => i \in DPost.items
+    \* every valid pack named by a block the source has applied (such packs are indexed by the source)
+    /\ \A b \in sd.ablocks : \A i \in sd.items : (i.ok /\ i.kind = "pack" /\ i.name \in b.packs) => i \in DPost.items
     /\ \A i \in NewItems : i \in sd.items
 \* unstage leaves exactly the committed part of every tree
 X_UnstageStep_A == Op("Unstage") /\ OkRes /\ Has2
